@@ -188,7 +188,8 @@ fn rand_flags(r: &mut Rng, spec: &FontSpec, plain: (u64, u64)) -> (u16, Option<u
     }
     let mut f = 0u16;
     let mut set = None;
-    match r.below(9) {
+    match r.below(10) {
+        9 => f |= lookup_flags::IGNORE_BASE_GLYPHS | lookup_flags::IGNORE_LIGATURES,
         7 | 8 => {
             // mark filtering set AND mark attachment type in one flag word: the set decides which marks count, the
             // attachment class is not consulted for them
@@ -581,7 +582,7 @@ fn gen_font_plain(seed: u64, index: u64) -> (FontSpec, Profile) {
             lks.push((*b"mark", mk_lookup(r, &spec, (1, 1), vec![sub])));
             if r.chance(2, 3) {
                 let sub = gen_mark_mark(r, false);
-                lks.push((*b"mkmk", mk_lookup(r, &spec, (2, 3), vec![sub])));
+                lks.push((*b"mkmk", mk_lookup(r, &spec, (1, 3), vec![sub])));
             }
             if r.chance(1, 6) {
                 // every anchor of the font at the same point: each attachment has offset (0, 0) before the advances of
